@@ -259,9 +259,14 @@ func VH05b_raw() {
 	reply.Header = append(reply.Header, m.Header...)
 	reply.Body = append(reply.Body, 'R')
 	gone := verif.Choice("gone", 2) == 1
+	var newcomers []*vt.Pipe
 	if gone {
 		p.Drop()
 		verif.Quiesce()
+		// ... and new clients connect before the late reply is sent: it is not theirs
+		for i := verif.Choice("newcomers", 3); i > 0; i-- {
+			newcomers = append(newcomers, side.Peer("late"))
+		}
 	}
 	var serr error
 	sg := verif.Go("send", func() { serr = sock.SendMsg(reply) })
@@ -269,6 +274,9 @@ func VH05b_raw() {
 	verif.Assert(sg.Done(), lab+"/send-returns")
 	other := pipes[1-src]
 	verif.Assert(len(other.Sent) == 0, lab+"/reply-delivered-to-wrong-connection")
+	for _, nc := range newcomers {
+		verif.Assert(len(nc.Sent) == 0, lab+"/late-reply-delivered-to-a-client-that-connected-after-the-asker-left")
+	}
 	if gone {
 		verif.Reach("gone")
 		verif.Assert(len(p.Sent) == 0, lab+"/reply-sent-on-closed-connection")
